@@ -52,10 +52,12 @@ def c12 (args res : List String) : Verdict :=
     | some np =>
     let opl := ops.splitOn ";"
     let outl := outs.splitOn ";"
-    let rec go : List String → List String → MState → Nat → Option Verdict
-      | [], _, _, _ => none
-      | _ :: _, [], _, _ => some (vBad "fewer outputs than ops")
-      | op :: ops, out :: outs, s, k =>
+    -- `div`: the first divergence of the bookkeeping snapshot (replies still agreed); the run then goes on with the
+    -- model's state, looking for a manager panic on a later event the tasks can still emit
+    let rec go : List String → List String → MState → Nat → Option Verdict → Option Verdict
+      | [], _, _, _, div => div
+      | _ :: _, [], _, _, _ => some (vBad "fewer outputs than ops")
+      | op :: ops, out :: outs, s, k, div =>
         let c := op.toList.headD ' '
         let rest := String.ofList (op.toList.drop 1)
         let (aS, argS) := match rest.splitOn ":" with
@@ -74,8 +76,8 @@ def c12 (args res : List String) : Verdict :=
             | 'h' => p.isSome && (match argS.toNat? with | some i => decide (i < np) | none => false)
             | 'b' => p.isSome && (bitsOfString argS).length = np
             | _ => p.isSome
-        if !enabled then some { text := s!"unrealizable-history op {op}", tag := "unrealizable" } else
-        if out = "PANIC" then some (vProp "v-manager-panic" s!"op-{c}") else
+        if !enabled then (match div with | some d => some d | none => some { text := s!"unrealizable-history op {op}", tag := "unrealizable" }) else
+        if out = "PANIC" then some (vProp (if div.isSome then "v-manager-panic-after-bookkeeping-diverged" else "v-manager-panic") s!"op-{c}") else
         match aS.toNat?, out.splitOn "|" with
         | some a, [reply, stS, psS] =>
           let implSt := (parseStatuses stS).getD []
@@ -134,10 +136,15 @@ def c12 (args res : List String) : Verdict :=
               | none =>
                 let modelReply := if c = 'b' then (if chosen.isSome then "BI" else "Bn") else replyTok r
                 let model := s!"{modelReply}|{statusesTok s'.statuses}|{mpeersTok s'.peers}"
-                if model ≠ out then some (vDiff s!"op-{c}-step{k}" model s!"op-{c}")
-                else go ops outs s' (k + 1)
+                if div.isSome then
+                  -- already diverged: go on only while the replies (which drive the tasks) still agree
+                  if modelReply ≠ reply then div else go ops outs s' (k + 1) div
+                else if model ≠ out then
+                  let d := vDiff s!"op-{c}-step{k}" model s!"op-{c}"
+                  if modelReply ≠ reply then some d else go ops outs s' (k + 1) (some d)
+                else go ops outs s' (k + 1) none
         | _, _ => some (vBad out)
-    match go opl outl { statuses := List.replicate np .missing, peers := [] } 0 with
+    match go opl outl { statuses := List.replicate np .missing, peers := [] } 0 none with
     | some v => v
     | none =>
       let has (ch : Char) := opl.any (fun o => o.toList.headD ' ' = ch)
